@@ -83,9 +83,10 @@ class InputGen:
             if k == "btn":
                 body.append({"op": "btn", "dev": r.choice(buttons)["name"]})
             elif k == "pot":
-                body.append({"op": "pot", "dev": r.choice(pots)["name"]})
+                # two reads in one tuple assignment are still two fresh reads
+                body.append({"op": "pot2" if r.random() < 0.25 else "pot", "dev": r.choice(pots)["name"]})
             elif k == "sonar":
-                body.append({"op": "sonar", "dev": r.choice(sonars)["name"]})
+                body.append({"op": "sonar2" if r.random() < 0.2 else "sonar", "dev": r.choice(sonars)["name"]})
             else:
                 body.append({"op": "sleep", "ms": r.choice([0, 1, 5, 20, 59, 60, 61, 100])})
         # also a measurement in setup sometimes (millis() may still be 0 there)
@@ -168,6 +169,10 @@ class InputGen:
             return f"mon.write({op['dev']}.read())"
         if op["op"] == "sonar":
             return f"mon.write({op['dev']}.measure_distance())"
+        if op["op"] == "pot2":
+            return f"ra, rb = {op['dev']}.read(), {op['dev']}.read()\n    mon.write(ra)\n    mon.write(rb)"
+        if op["op"] == "sonar2":
+            return f"da, db = {op['dev']}.measure_distance(), {op['dev']}.measure_distance()\n    mon.write(da)\n    mon.write(db)"
         return f"sleep({op['ms']})"
 
 
@@ -306,6 +311,12 @@ class E4Inputs(Engine):
                     expected.append((k, next_ain(pname[op["dev"]])))
                 elif op["op"] == "sonar":
                     expected.append((k, measure(sname[op["dev"]])))
+                elif op["op"] == "pot2":
+                    expected.append((k, next_ain(pname[op["dev"]])))
+                    expected.append((k, next_ain(pname[op["dev"]])))
+                elif op["op"] == "sonar2":
+                    expected.append((k, measure(sname[op["dev"]])))
+                    expected.append((k, measure(sname[op["dev"]])))
             expected.append((k, "E"))
         got = [(o.phase, o.value) for o in tr.channels.get("ser", [])]
         for i in range(max(len(got), len(expected))):
@@ -343,8 +354,8 @@ class E4Inputs(Engine):
                     return ("button-sampling", f"pass {k}: button on pin {b['pin']} sampled after user code started")
             n_reads = {}
             for op in case["body"]:
-                if op["op"] == "pot":
-                    n_reads[pname[op["dev"]]["ch"]] = n_reads.get(pname[op["dev"]]["ch"], 0) + 1
+                if op["op"] in ("pot", "pot2"):
+                    n_reads[pname[op["dev"]]["ch"]] = n_reads.get(pname[op["dev"]]["ch"], 0) + (2 if op["op"] == "pot2" else 1)
             for p in pots:
                 ars = sum(1 for kind, rest, _t in evs if kind == "AR" and int(rest.split()[0]) == 14 + p["ch"])
                 if ars != n_reads.get(p["ch"], 0):
@@ -354,6 +365,8 @@ class E4Inputs(Engine):
             stored_ms: Optional[int] = None  # what the helper remembers as "last trigger" (millis() right after the echo)
             last_millis: Optional[int] = None
             attempts_in_call = 0
+            # calls are delimited by the serial line that follows them; a tuple of two calls has no line in between
+            calls_per_statement = 2 if any(op["op"] == "sonar2" and op["dev"] == s["name"] for op in case["body"]) else 1
             for t, phase, kind, rest in tr.raw:
                 if kind == "MILLIS":
                     last_millis = int(rest)
@@ -361,8 +374,8 @@ class E4Inputs(Engine):
                     attempts_in_call = 0
                 elif kind == "PULSEIN" and int(rest.split()[0]) == s["echo"]:
                     attempts_in_call += 1
-                    if attempts_in_call > 3:
-                        return ("sonar-retries", f"more than three trigger attempts in one measure_distance() call on echo pin {s['echo']}")
+                    if attempts_in_call > 3 * calls_per_statement:
+                        return ("sonar-retries", f"more than three trigger attempts per measure_distance() call on echo pin {s['echo']}")
                     if stored_ms is not None and stored_ms >= 1 and last_millis is not None and last_millis - stored_ms < 60:
                         return ("sonar-spacing", f"sensor on echo pin {s['echo']} triggered {last_millis - stored_ms} ms after the previous attempt (millis {stored_ms} -> {last_millis})")
                     stored_ms = -1  # filled by the next MILLIS event
